@@ -10,7 +10,7 @@ META = {
                    'curve starts at the cursor, falling back to its first control point only when there is none; R16.3 each curve is '
                    'delegated to lyon as {from: cursor, ctrl(s), to} in payload order with the tolerance parameter, every yielded point is '
                    'pushed as LineTo and the cursor becomes the end point; R16.4 the result keeps the winding rule of the input.',
-    'decides': ['R16.1 output alphabet', 'R16.2 cursor law (Close returns to the subpath start)', 'R16.3 faithful delegation of curves', 'R16.4 winding rule preserved'],
+    'decides': ['R16.1 output alphabet', 'R16.2 cursor law (Close returns to the subpath start)', 'R16.3 faithful delegation of curves', 'R16.4 winding rule preserved', 'R16.5 a curve that begins a subpath emits its starting point'],
     'does_not_decide': ['deviation <= 8 x tolerance, points lying on the curve in parameter order (lyon_geom)', 'float rounding'],
     'assumptions': ['lyon_geom QuadraticBezierSegment/CubicBezierSegment::flattened(tol) yields points on the curve in order ending at `to` (external, lyon_geom 1.0.19)'],
     'trusted_base': ['lyon_geom 1.0.19'],
@@ -211,7 +211,13 @@ def r16_3(ctx, b, m):
             ctx.check(strip_all(ct[2][0]) == st and ct[2][1] == ('param', 2), R, key + '|%s flattened args' % v, call_line(b, bi),
                       'flattened(segment, tolerance)', 'flattened() is called as %s, expected (the segment built from the op, the tolerance parameter)' % fmt(b, ct))
             # pushes in the arm: LineTo{0: payload of next() on the iterator of flattened}
-            pushes = [(pb, pct) for pb, d, pct in calls_in(ctx, b, region) if d and d.endswith('Vec::<T, A>::push')]
+            def from_next(pct):
+                pv0 = strip_all(pct[2][1])
+                if pv0[0] != 'agg' or not pv0[4]:
+                    return False
+                p0 = strip_all(pv0[4][0][1])
+                return p0[0] == 'field' and p0[4] == 'Some' and is_call(p0[1], 'Iterator::next')
+            pushes = [(pb, pct) for pb, d, pct in calls_in(ctx, b, region) if d and d.endswith('Vec::<T, A>::push') and from_next(pct)]
             okp = len(pushes) == 1
             if okp:
                 pv = strip_all(pushes[0][1][2][1])
@@ -242,6 +248,40 @@ def r16_3(ctx, b, m):
         ctx.check(okc, R, key + '|%s cursor:=end' % v, b.loc(sp), 'cursor := Some(end point)', 'after a %s the cursor is not set to its end point (payload %d)' % (v, last))
 
 
+def r16_5(ctx, b, m):
+    """a curve that begins a subpath (no cursor) emits its own starting point before the flattened points"""
+    R = 'R16.5'
+    an = ctx.an(b)
+    key = 'path_builder::Path::flatten'
+    res = result_local(ctx, b)
+    for v in ('QuadTo', 'CubicTo'):
+        if v not in m.arms:
+            continue
+        region = arm_region(an.cfg, m.bb, m.arms[v])
+        ok = False
+        for bi, d, ct in calls_in(ctx, b, region):
+            if not (d and d.endswith('Vec::<T, A>::push')):
+                continue
+            pv = strip_all(ct[2][1])
+            if pv[0] != 'agg' or pv[3] not in ('LineTo', 'MoveTo'):
+                continue
+            pt = strip_all(pv[4][0][1])
+            starts_here = payload(pt, v, 0) or (is_call(pt, 'unwrap_or') and payload(pt[2][1], v, 0))
+            if not starts_here:
+                continue
+            # only when there is no cursor
+            gs = normalized_guards(ctx, b, bi)
+            vg = variant_guards(ctx, b, bi)
+            none_guard = any(op == 'true' and is_call(g, 'Option::<T>::is_none') for op, g, b2, si in gs) or any(vv == 'None' for scr, adt, vv, sb in vg)
+            # and before the loop that pushes the flattened points
+            fl = [bb for bb, dd, cc in calls_in(ctx, b, region) if dd and dd.endswith('::flattened')]
+            before = all(an.cfg.can_reach(bi, [f]) for f in fl) if fl else False
+            if none_guard and before:
+                ok = True
+        ctx.check(ok, R, key + '|%s starting a subpath emits its start' % v, b.loc(), 'no cursor: the curve\'s starting point (its first control point) is pushed before the flattened points',
+                  'when a %s is the first op of a subpath (no current point) flatten pushes only the points after the curve\'s start: the polyline does not begin at the curve\'s true starting point (its first control point), so the flattened path starts at the first interior point instead' % v)
+
+
 def r16_4(ctx, b):
     R = 'R16.4'
     an = ctx.an(b)
@@ -267,4 +307,5 @@ def run(ctx):
         r16_1(ctx, b, m)
         r16_2(ctx, b, m)
         r16_3(ctx, b, m)
+        r16_5(ctx, b, m)
     r16_4(ctx, b)
